@@ -13,7 +13,13 @@ from lib import core, tlc, t2dbuild
 MOPS = [10, 12, 14, 17, 20, 21, 22, 23, 24, 1]
 REQ = ("b", "c", "g")
 TYPE_OF = {"sup": "MASS", "conv": "CO2 ", "unsup": "DELG", "converted": "COM2"}
-CLS_OF = {"MASS": "sup", "CO2 ": "conv", "DELG": "unsup", "RECH": "unsup", "COM2": "converted", "HEAT": "sup"}
+# every generator type of each class (TOUGH2 has HEAT, WATE, AIR, MASS, DELV and the COMn; CO2 becomes COM2; the rest go)
+TYPES_OF = {"sup": ["MASS", "HEAT", "WATE", "AIR ", "DELV", "COM1", "COM3"], "conv": ["CO2 "],
+            "unsup": ["DELG", "RECH", "FEED", "DELS", "DMAK"], "converted": ["COM2"]}
+CLS_OF = {"CO2 ": "conv", "COM2": "converted"}
+for _c in ("sup", "unsup"):
+    for _t in TYPES_OF[_c]:
+        CLS_OF[_t] = _c
 
 
 def tla_model(m):
@@ -89,7 +95,8 @@ def build_real(m, rng):
     keys = {1: (blks[0].name, "gen 1"), 2: (blks[2].name, "gen 2")}
     for i, g in enumerate(m["gens"]):
         blk, name = keys[g["key"]]
-        dat.add_generator(t2data.t2generator(name=name, block=blk, type=TYPE_OF[g["cls"]], gx=1.0 + i, ex=1.0e5,
+        dat.add_generator(t2data.t2generator(name=name, block=blk, type=TYPES_OF[g["cls"]][(i + len(m["gens"]) + m["mop"]["10"]) % len(TYPES_OF[g["cls"]])],
+                                             gx=1.0 + i, ex=1.0e5,
                                              hg=(2.5 if g["cls"] == "unsup" else None)))
     rq = m["short"] if m["flav"] == "AUTOUGH2" else m["hist"]
     bl = [blks[i] for i in range(rq["b"])]
@@ -114,6 +121,13 @@ def build_real(m, rng):
         dat.history_block, dat.history_connection = bl, cl
         # generator history requests as block objects, or as bare names (what reading a file whose mesh is elsewhere gives)
         dat.history_generator = [dat.grid.block[g.block] for g in gl] if rng.random() < 0.5 else [g.block for g in gl]
+        if rng.random() < 0.4:
+            # requests that convert to nothing (the documentation: "items referring to blocks or connections not present in
+            # the grid are discarded"): a name that is not in the grid, and a generator request for a block without generators
+            dat.history_block = dat.history_block + ["zz 99"]
+            dat.history_connection = dat.history_connection + [("zz 98", "zz 99")]
+            dat.history_generator = dat.history_generator + [blks[1].name]
+            dat.unconvertible_requests = True
     return dat
 
 
@@ -145,10 +159,11 @@ def check_conversion(rep, pre, act, post, rng, work):
              [tuple(b.name for b in c.block) for c in dat.grid.connectionlist])
     rocks0 = [(r.name, r.density, r.porosity, list(r.permeability), r.specific_heat) for r in dat.grid.rocktypelist]
     gens0 = [(g.block, g.name, g.type, g.gx, g.ex) for g in dat.generatorlist]
-    req0 = {"b": [b.name for b in (dat.short_output.get("block", []) or dat.history_block)],
-            "c": [tuple(x.name for x in c.block) for c in (dat.short_output.get("connection", []) or dat.history_connection)],
+    genblocks = set(g.block for g in dat.generatorlist)
+    req0 = {"b": [b.name for b in (dat.short_output.get("block", []) or dat.history_block) if not isinstance(b, str)],
+            "c": [tuple(x.name for x in c.block) for c in (dat.short_output.get("connection", []) or dat.history_connection) if not isinstance(c, tuple)],
             # (a kind present in SHORT replaces the history requests of that kind, as Convert.tla says: IF short > 0 THEN short ELSE hist)
-            "g": sorted(set(g.block for g in dat.short_output["generator"]) if dat.short_output.get("generator") else set((b if isinstance(b, str) else b.name) for b in dat.history_generator))}
+            "g": sorted(set(g.block for g in dat.short_output["generator"]) if dat.short_output.get("generator") else set((b if isinstance(b, str) else b.name) for b in dat.history_generator) & genblocks)}
     to_t = act["op"] == "to_TOUGH2"
     key = "%s:%s" % (act["op"], "MP" if act["mp"] else "std")
     det = {"pre": pre, "act": act}
@@ -205,8 +220,8 @@ def check_conversion(rep, pre, act, post, rng, work):
             bad = ("remaining-generators-changed", "P4_rest_unchanged")
         else:
             so = dat.short_output
-            req1 = {"b": [b.name for b in (so.get("block", []) or dat.history_block)],
-                    "c": [tuple(x.name for x in c.block) for c in (so.get("connection", []) or dat.history_connection)],
+            req1 = {"b": [(b if isinstance(b, str) else b.name) for b in (so.get("block", []) or dat.history_block)],
+                    "c": [(c if isinstance(c, tuple) else tuple(x.name for x in c.block)) for c in (so.get("connection", []) or dat.history_connection)],
                     "g": sorted(set(g.block for g in so.get("generator", [])) |
                                 set((b if isinstance(b, str) else b.name) for b in dat.history_generator))}
             alive = set(g[0] for g in keep)
